@@ -667,9 +667,17 @@ func TestStructCases(t *testing.T) {
 		ptr := reflect.New(sp.typ)
 		ptr.Elem().Set(val)
 		var probs []string
+		// a structure that carries the protocol version itself is encoded and decoded on a fresh encoder / decoder, with nothing before
+		// it: its own first member is what sets the version that gates its other members
+		encVer := c.Ver
+		for _, f := range sp.Fields {
+			if f.SetVer && c.Ver >= 0 {
+				encVer = -1
+			}
+		}
 		for _, e := range encodings {
 			evals++
-			doc, pan := encodeUnder(e, c.Ver, ptr.Interface())
+			doc, pan := encodeUnder(e, encVer, ptr.Interface())
 			if pan != "" {
 				probs = append(probs, e.name+":encode-panic:"+pan)
 				continue
@@ -684,11 +692,11 @@ func TestStructCases(t *testing.T) {
 			}
 			// decode at the same version, re-encode: identical document
 			back := reflect.New(sp.typ)
-			if err := decodeUnder(e, c.Ver, doc, back.Interface()); err != nil {
+			if err := decodeUnder(e, encVer, doc, back.Interface()); err != nil {
 				probs = append(probs, fmt.Sprintf("%s:decode-error:%v", e.name, err))
 				continue
 			}
-			doc2, pan := encodeUnder(e, c.Ver, back.Interface())
+			doc2, pan := encodeUnder(e, encVer, back.Interface())
 			if pan != "" || !bytes.Equal(doc, doc2) {
 				probs = append(probs, fmt.Sprintf("%s:reencoding-differs:%s", e.name, pan))
 			}
@@ -698,8 +706,8 @@ func TestStructCases(t *testing.T) {
 				if o.name == e.name {
 					continue
 				}
-				d1, p1 := encodeUnder(o, c.Ver, ptr.Interface())
-				d2, p2 := encodeUnder(o, c.Ver, back.Interface())
+				d1, p1 := encodeUnder(o, encVer, ptr.Interface())
+				d2, p2 := encodeUnder(o, encVer, back.Interface())
 				if p1 == "" && p2 == "" && !bytes.Equal(d1, d2) {
 					probs = append(probs, fmt.Sprintf("%s:value-changed-by-roundtrip:seen-in-%s:first-difference-at-%d", e.name, o.name, firstDiff(d1, d2)))
 					break
